@@ -106,11 +106,11 @@ pub fn run<C: Suite>(ctx: &mut Ctx) {
             for t in ts {
                 let mut co = Corpus::<C>::default();
                 let id = frost_core::Identifier::<C>::try_from(1u16).unwrap();
-                if let Ok((s, pk)) = frost_core::keys::dkg::part1::<C, _>(id, t, t, &mut rng) {
+                if let Ok((s, pk)) = C::api_dkg_part1(id, t, t, &mut rng) {
                     co.dkg_r1_secret.push(s);
                     co.dkg_r1_package.push(pk);
                 }
-                if let Ok((s, pk)) = frost_core::keys::refresh::refresh_dkg_part1::<C, _>(id, t, t, &mut rng) {
+                if let Ok((s, pk)) = C::api_refresh_dkg_part1(id, t, t, &mut rng) {
                     co.vss_commitment.push(pk.commitment().clone());
                     co.dkg_r1_secret.push(s);
                     co.dkg_r1_package.push(pk);
